@@ -333,6 +333,9 @@ impl Prop for C07 {
       _ => panic!("unknown task {}", t),
     }
   }
+  fn cold_subs(&self) -> Vec<(&'static str, i64, i64, fn(i64) -> Vec<i64>)> {
+    vec![("scd", 0, crate::model::NDAYS as i64, |x| vec![x, 1])]
+  }
   fn eval(&self, env: &Env, out: &mut Out, sub: &str, case: &Case) {
     match sub {
       "date" | "scd" => self.eval_date(env, out, sub, case),
